@@ -1464,7 +1464,7 @@ def gen_callers_dispatch(rng, quick):
             ownw = selfmade and w in (8, 16, 32)
             if ownw:
                 # created_by is only a string: besides the writer's own layout ("wbp") a file naming fastparquet may hold any runs
-                shapes = [("wbp",), ("rle",), ("bp",)] + ([("rle", "bp", "rle")] if w <= 24 else [])
+                shapes = [("wbp",), ("rle",), ("bp",)] + ([("rle", "bp", "rle"), ("bp8", "rle")] if w <= 24 else [])
             elif w == 0:
                 shapes = [("rle",), ("bp",)]          # (width 0: the readers must not enter the native decoder at all)
             elif w > 24:
@@ -1485,6 +1485,9 @@ def gen_callers_dispatch(rng, quick):
                             runs = [["rle", 1, ext[0]], ["rle", 1, ext[1]], ["rle", max(nval - 2, 0), ext[2]]]
                         elif shape in (("bp",), ("wbp",)):
                             runs = [["bp", (ext + rnd(nval))[:nval]]]
+                        elif shape == ("bp8", "rle"):
+                            # a first bit-packed run that does NOT hold all the values, then RLE: not the one-run layout
+                            runs = [["bp", (ext + rnd(8))[:8]], ["rle", max(nval - 8, 0), ext[0]]]
                         else:
                             runs = [["rle", 2, ext[0]], ["bp", (ext[1:] + rnd(8))[:8]], ["rle", 1, ext[2]], ["bp", rnd(max(nval - 11, 0))]]
                         want, left, kept = [], nval, []
